@@ -21,7 +21,7 @@ use crate::simterm::SimTerm;
 
 pub struct C06;
 
-const WAYS: [&str; 9] = [
+const WAYS: [&str; 10] = [
     "hidden_target",
     "set_hidden_later",
     "non_tty_term",
@@ -31,6 +31,7 @@ const WAYS: [&str; 9] = [
     "hidden_ctor",
     "moved_to_hidden_mp",
     "hidden_while_mp_hidden",
+    "removed_while_mp_hidden",
 ];
 
 fn style() -> ProgressStyle {
@@ -143,9 +144,9 @@ fn exec(sc: &Scenario) -> Report {
                     return r;
                 }
             },
-            "hidden_while_mp_hidden" => {
-                // member of a hidden MultiProgress that is hidden explicitly, too; the MultiProgress
-                // gets a visible target later
+            "hidden_while_mp_hidden" | "removed_while_mp_hidden" => {
+                // member of a hidden MultiProgress that is hidden explicitly, too (or removed from
+                // it); the MultiProgress gets a visible target later
                 let mp = MultiProgress::with_draw_target(ProgressDrawTarget::hidden());
                 let pb = mp.add(ProgressBar::with_draw_target(len, ProgressDrawTarget::term_like(Box::new(spy.clone()))));
                 mp_keep = Some(mp);
@@ -168,7 +169,7 @@ fn exec(sc: &Scenario) -> Report {
         let ops = sc.threads.first().cloned().unwrap_or_default();
         let switch_at = (sc.c("switch_at") as usize).min(ops.len());
         let mut silent_from: Option<usize> = match way {
-            "mp_hidden" | "hidden_while_mp_hidden" => Some(0),
+            "mp_hidden" | "hidden_while_mp_hidden" | "removed_while_mp_hidden" => Some(0),
             _ => None,
         };
         let mut mp_hidden2: Option<MultiProgress> = None;
@@ -192,6 +193,12 @@ fn exec(sc: &Scenario) -> Report {
                         let _ = if sc.c("switch_at") % 2 == 0 { mp2.add(hid.clone()) } else { mp2.insert(0, hid.clone()) };
                         mp_hidden2 = Some(mp2);
                         silent_from = Some(i);
+                    }
+                    "removed_while_mp_hidden" => {
+                        if let Some(mp) = &mp_keep {
+                            mp.remove(&hid);
+                            mp.set_draw_target(ProgressDrawTarget::term_like(Box::new(spy.clone())));
+                        }
                     }
                     "hidden_while_mp_hidden" => {
                         hid.set_draw_target(ProgressDrawTarget::hidden());
@@ -285,7 +292,7 @@ impl Check for C06 {
         "C06"
     }
     fn rule_text(&self) -> String {
-        "One way of being hidden per run (ProgressDrawTarget::hidden(), ProgressBar::hidden(), set_draw_target(hidden()) after having been visible, a real console::Term over a regular file = not a tty, member of a MultiProgress built on a hidden target or on the non-tty Term, bar removed from a visible MultiProgress with a live sibling, bar handed over from a visible MultiProgress to a hidden one, member of a hidden MultiProgress that is also hidden explicitly before the MultiProgress gets a visible target). A history of 3..30 calls (tick/inc/dec/set_position/set_message/set_prefix/length ops/set_style/set_tab_width/println/suspend/reset*/finish*/abandon*/finish_using_style/force_draw/update/enable+disable_steady_tick/wrap_iter/getters, clock gaps and simulated sleeps) is applied in lock-step to the hidden bar and to a visible twin on its own simulated terminal, same virtual clock. Oracle: after every call position/length/message/prefix/is_finished are equal; a spy terminal attributes every call and query to the API call in progress and must see none from the hidden bar (also while a steady ticker runs); the file behind the non-tty Term stays empty; no call panics. Non-trivial: >= 3 calls and the visible twin painted at least one frame. Distinct = distinct scenario hash.".into()
+        "One way of being hidden per run (ProgressDrawTarget::hidden(), ProgressBar::hidden(), set_draw_target(hidden()) after having been visible, a real console::Term over a regular file = not a tty, member of a MultiProgress built on a hidden target or on the non-tty Term, bar removed from a visible MultiProgress with a live sibling, bar handed over from a visible MultiProgress to a hidden one, member of a hidden MultiProgress that is also hidden explicitly, or removed from it, before the MultiProgress gets a visible target). A history of 3..30 calls (tick/inc/dec/set_position/set_message/set_prefix/length ops/set_style/set_tab_width/println/suspend/reset*/finish*/abandon*/finish_using_style/force_draw/update/enable+disable_steady_tick/wrap_iter/getters, clock gaps and simulated sleeps) is applied in lock-step to the hidden bar and to a visible twin on its own simulated terminal, same virtual clock. Oracle: after every call position/length/message/prefix/is_finished are equal; a spy terminal attributes every call and query to the API call in progress and must see none from the hidden bar (also while a steady ticker runs); the file behind the non-tty Term stays empty; no call panics. Non-trivial: >= 3 calls and the visible twin painted at least one frame. Distinct = distinct scenario hash.".into()
     }
     fn assumptions(&self) -> Vec<String> {
         vec![
@@ -302,7 +309,7 @@ impl Check for C06 {
     fn gen(&self, rng: &mut Rng, tier: Tier, _index: u64) -> Scenario {
         let mut sc = Scenario::new("C06", "twin", rng.next_u64());
         // the file-backed ways cost syscalls: keep them at a smaller share
-        sc.set("way", rng.weighted(&[5, 5, 1, 4, 1, 6, 2, 4, 4]) as u64);
+        sc.set("way", rng.weighted(&[5, 5, 1, 4, 1, 6, 2, 4, 4, 4]) as u64);
         sc.set("len_known", rng.chance(3, 4) as u64);
         sc.set("len0", boundary_u64(rng));
         sc.set("on_finish", rng.below(5));
